@@ -1,6 +1,7 @@
 SPECIFICATION Spec
 CONSTANTS
   WorkerCpus <- A_Workers
+  WorkerGroup <- A_Groups
   Menu <- A_Menu
   Classes <- A_Classes
   MaxLosses = 1
@@ -40,5 +41,7 @@ INVARIANTS
   C13_CompletedOnce
   C14_AbortAllOnExceed
   C14_ExceededStopped
+  C05_MnExclusive
+  C05_MnWorkersIdle
 PROPERTIES
   StepProps
